@@ -120,6 +120,9 @@ var LitTexts = map[string][]string{
 		"123456789012345678901234567890", `"\u006eull"`},
 	"slice_of_string": {"null", "", "a null b"},
 	"map_of_string":   {"null", ""},
+	"discriminated":     {"", "u:1", "null", `{"kind":"other"}`},
+	"discriminated_ptr": {"", "u:1", `"@type"`},
+	"embedded_fields":   {"", "u:1", "null"},
 }
 
 // LitObjects are the literal objects of the exhaustive part: every shape, with every parameter text of LitTexts.
@@ -343,6 +346,51 @@ func TestC19Exhaustive(t *testing.T) {
 			}
 		})
 	}
+	// foreign extraction targets (foreign.go): the target's type is not the object's - narrower, wider, untagged, with
+	// anonymous embedded structs, with any / json.Number / RawMessage fields, empty, a typed map, a struct with a field of
+	// the wrong type, a scalar, a slice; zero and used - judged by json.Unmarshal into an identically prepared target:
+	// every list up to depth 1 (thorough 2) over (a plain style, a JSON-like style, an inner GRPCWrap, a Join with a side
+	// error) x coded classes x embedding level x (Obj structs, literal objects of every JSON form, the objects whose
+	// MarshalJSON adds keys, two generated messages) x every kind of ForeignIntoKinds
+	foreign := int64(0)
+	{
+		styles := []Wrap{Styles[1], Styles[3], {Kind: LGRPC}, Levels[4]}
+		var objects []Chain
+		for _, o := range []*Obj{Objects[0], Objects[2], Objects[3]} {
+			objects = append(objects, Chain{Obj: o})
+		}
+		for _, l := range []*Lit{{Shape: "nil_ptr_struct"}, {Shape: "int", Text: "-1"}, {Shape: "string", Text: "null"}, {Shape: "slice_of_string", Text: "a null b"},
+			{Shape: "map_of_string", Text: "null"}, {Shape: "empty_struct"}, {Shape: "rawmessage", Text: `{"s":1,"S":"both spellings","n":"7"}`},
+			{Shape: "rawmessage", Text: `{"S":"upper","N":1e2,"In":{"s":null},"l":null}`},
+			{Shape: "discriminated", Text: "u:1"}, {Shape: "discriminated_ptr", Text: "u:1"}, {Shape: "embedded_fields", Text: "u:1"}} {
+			objects = append(objects, Chain{Lit: l})
+		}
+		objects = append(objects, Chain{PB: PBObjects[0]}, Chain{PB: PBObjects[len(PBObjects)/2]})
+		enum.Lists(len(styles), vstat.Pick(1, 2), 0, 1, func(idx []int) {
+			wraps := make([]Wrap, len(idx))
+			for i, e := range idx {
+				wraps[i] = styles[e]
+			}
+			for ci, cls := range CodedClasses {
+				if !mine() {
+					continue
+				}
+				for emb := 0; emb <= len(wraps); emb++ {
+					for oi, o := range objects {
+						for ii, into := range ForeignIntoKinds {
+							if (ci+oi+ii)%2 != 0 && len(wraps) >= 1 {
+								continue // depth >= 1: half of the (class, object, target) combinations per list
+							}
+							ch := o
+							ch.Class, ch.Wraps, ch.Embed, ch.Into = cls, wraps, emb, into
+							run(Case{Kind: "chain", Chain: ch})
+							foreign++
+						}
+					}
+				}
+			}
+		})
+	}
 	if shard == 0 {
 		for code := uint32(0); code < NumCodes; code++ {
 			for _, m := range append(append([]string{}, Messages...), RawStyles[0].Pre, RawStyles[1].Post) {
@@ -359,6 +407,7 @@ func TestC19Exhaustive(t *testing.T) {
 		"raw_byte_styles": len(RawStyles), "raw_byte_objects": len(RawObjects), "extraction_target_kinds": IntoKinds, "owned_target_and_raw_byte_cases_this_shard": owned,
 		"proto_message_kinds": PBKinds, "proto_message_objects": len(PBObjects), "proto_message_target_kinds": PBIntoKinds, "proto_message_cases_this_shard": protos,
 		"literal_object_shapes": LitShapes, "literal_objects": len(LitObjects), "literal_object_target_kinds": LitIntoKinds, "literal_object_cases_this_shard": lits,
+		"foreign_target_kinds": ForeignIntoKinds, "foreign_target_cases_this_shard": foreign,
 		"batch_sizes": "2..8", "batch_cases_this_shard": batches, "twin_batch_cases_this_shard": twins, "shards": shards})
 }
 
@@ -659,7 +708,7 @@ func genLit(t *rapid.T) *Lit {
 		l.Text = fmt.Sprint(rapid.Float64().Filter(func(f float64) bool { return !math.IsInf(f, 0) && !math.IsNaN(f) }).Draw(t, "litFloat"))
 	case "number":
 		l.Text = number()
-	case "string", "slice_of_string", "map_of_string":
+	case "string", "slice_of_string", "map_of_string", "discriminated", "discriminated_ptr", "embedded_fields":
 		l.Text = ""
 		for n := rapid.IntRange(0, 3).Draw(t, "litWords"); n > 0; n-- {
 			l.Text += word.Draw(t, "litWord")
@@ -772,7 +821,10 @@ func genChain(t *rapid.T, big int) Chain {
 		}
 		// half of the chains with an object: the caller extracts into a target of its own and overwrites it afterwards
 		if rapid.Bool().Draw(t, "owned") {
-			if c.PB != nil {
+			if rapid.IntRange(0, 2).Draw(t, "foreignTarget") == 0 {
+				// a third of them: a target whose type is not the object's (foreign.go), whatever the object is
+				c.Into = rapid.SampledFrom(ForeignIntoKinds).Draw(t, "foreignInto")
+			} else if c.PB != nil {
 				c.Into = rapid.SampledFrom(PBIntoKinds).Draw(t, "into")
 			} else if c.Lit != nil {
 				c.Into = rapid.SampledFrom(LitIntoKinds).Draw(t, "into")
